@@ -54,7 +54,9 @@ type RunResult struct {
 	Threads      int
 	MaxThreads   int
 	SolverErrors int
+	Fallbacks    int
 	Witnesses    []map[string]interface{}
+	KFModels     map[string]map[string]interface{}
 	witnessAsked int
 }
 
@@ -102,7 +104,11 @@ func Explore(P *Program, cfg *HarnessCfg, nWorkers int, solverKind string, timeo
 		wg.Add(1)
 		go func(wid int) {
 			defer wg.Done()
-			solver, err := NewSolver(solverKind, timeoutMs)
+			pto := timeoutMs
+			if fallbackFor(solverKind) != "" && pto > 8000 {
+				pto = 8000 // the fallback solver gets the full budget
+			}
+			solver, err := NewSolver(solverKind, pto)
 			if err != nil {
 				mu.Lock()
 				res.Inconclusive = append(res.Inconclusive, "solver start: "+err.Error())
@@ -116,6 +122,13 @@ func Explore(P *Program, cfg *HarnessCfg, nWorkers int, solverKind string, timeo
 				solver.log = f
 			}
 			defer solver.Close()
+			var solver2 *Solver
+			if fb := fallbackFor(solverKind); fb != "" {
+				solver2, _ = NewSolver(fb, timeoutMs)
+				if solver2 != nil {
+					defer solver2.Close()
+				}
+			}
 			for {
 				mu.Lock()
 				for len(work) == 0 && active > 0 && !stop {
@@ -138,12 +151,18 @@ func Explore(P *Program, cfg *HarnessCfg, nWorkers int, solverKind string, timeo
 					wantW = true
 				}
 				mu.Unlock()
-				pr := runOnePath(P, cfg, entry, solver, it.prefix, wantW)
+				pr := runOnePath(P, cfg, entry, solver, solver2, it.prefix, wantW)
 
 				mu.Lock()
 				active--
 				if wantW && pr.witness == nil {
 					res.witnessAsked--
+				}
+				for id, m := range pr.kfModels {
+					if res.KFModels == nil {
+						res.KFModels = map[string]map[string]interface{}{}
+					}
+					res.KFModels[id] = m
 				}
 				for _, a := range pr.alts {
 					work = append(work, workItem{a})
@@ -217,6 +236,13 @@ func Explore(P *Program, cfg *HarnessCfg, nWorkers int, solverKind string, timeo
 				mu.Unlock()
 			}
 			mu.Lock()
+			if solver2 != nil {
+				res.Fallbacks += solver2.Queries
+				res.UnknownN -= solver2.SatN + solver2.UnsatN
+				res.SatN += solver2.SatN
+				res.UnsatN += solver2.UnsatN
+				res.SolverTime += solver2.Time
+			}
 			res.Queries += solver.Queries
 			res.SatN += solver.SatN
 			res.UnsatN += solver.UnsatN
@@ -256,11 +282,12 @@ type pathResult struct {
 	sample      string
 	nthreads    int
 	witness     map[string]interface{}
+	kfModels    map[string]map[string]interface{}
 }
 
-func runOnePath(P *Program, cfg *HarnessCfg, entry *ssa.Function, solver *Solver, prefix []int, wantWitness bool) (pr pathResult) {
+func runOnePath(P *Program, cfg *HarnessCfg, entry *ssa.Function, solver, solver2 *Solver, prefix []int, wantWitness bool) (pr pathResult) {
 	ex := &Exec{
-		P: P, ctx: NewCtx(), solver: solver, cfg: cfg, entry: entry, prefix: prefix,
+		P: P, ctx: NewCtx(), solver: solver, solver2: solver2, cfg: cfg, entry: entry, prefix: prefix,
 		globals: map[*ssa.Global]*Object{}, mutexes: map[string]*MutexState{},
 		tagCount: map[string]int{}, covers: map[string]bool{}, fnsSeen: map[*ssa.Function]int{},
 		pools: map[string][]Value{}, idxMemo: map[string]*Term{}, maxOf: map[*Object]int{},
@@ -287,6 +314,7 @@ func runOnePath(P *Program, cfg *HarnessCfg, entry *ssa.Function, solver *Solver
 		pr.discharged = ex.discharged
 		pr.unknown = ex.sawUnknown
 		pr.nthreads = len(ex.threads)
+		pr.kfModels = ex.kfModels
 		pr.funcs = map[string]int{}
 		for fn := range ex.fnsSeen {
 			pr.funcs[fn.String()] = len(fnInstrs(fn))
@@ -339,4 +367,17 @@ func fnInstrs(fn *ssa.Function) []ssa.Instruction {
 		l = append(l, b.Instrs...)
 	}
 	return l
+}
+
+// fallbackFor names the solver that re-decides queries the primary gives up on.
+func fallbackFor(kind string) string {
+	switch kind {
+	case "cvc5-int":
+		return "z3-new"
+	case "z3-new", "z3":
+		return "cvc5-int"
+	case "cvc5":
+		return "z3-new"
+	}
+	return ""
 }
